@@ -166,7 +166,7 @@ TipIsLastImmutable ==
 
 \* lemma used by the generators: the fuzzy start index is monotone in the slot,
 \* so equal answers at both ends of a slot range hold for every slot inside
-FuzzyMonotone ==
+FuzzyMonotone == out.op = "open" =>
     \A s, t \in { p.slot : p \in { q \in Points : q.kind = "fuzzy" } } :
         s <= t => FirstAtOrAfter(All(db), s) <= FirstAtOrAfter(All(db), t)
 =============================================================================
